@@ -14,7 +14,7 @@ import (
 
 func init() {
 	Registry["C18"] = Set{
-		Explanation: "Decides structural clauses of event delivery: V1 in RouteSendEvent the fan-out of a local producer's publication is reachable only through the edge on which the presented token equals the registered token (unknown event and wrong token return errors), the publication is appended to the replay buffer before the consumer list is read, each listed local consumer gets exactly one send of this very message with the publisher as sender, and each remote node gets one frame; V2 in the four subscribe functions the relation is inserted before the replay buffer is snapshotted (no publication can fall between), the consumer counter is changed by exactly +1 after a successful insert / -1 after a successful removal, and the producer is notified with MessageEventStart exactly on the counter value 1 after +1 and with MessageEventStop exactly on 0 after -1, only when notifications are enabled; V3 unregistering an event and the owner's termination both reach RouteTerminateEvent for it, and only the owner may unregister. Added while probing: V1 every element of the subscriber list is either sent to locally or its node recorded in the set the frame loop ranges over. V4 the subscriber counter follows the relation set: the process release function counts a terminating subscriber out of the events it was subscribed to (both lists of CleanupConsumer), with MessageEventStop at zero. V5 = C06.G7 for events: a failed RegisterEvent leaves no entry behind, so the termination of the loser does not unregister the owner's event. V6 the local fan-out sends to a pid only behind the miss edge of a lookup in a set of served pids which it then enters (the consumer list holds a process once per relation). V7 every operation on an event's replay buffer — the push and the whole walk of a new subscriber (Item, Value, Next) — is made while that event's buffer lock is held. V8 the termination notice of an event uses the same kind of link/queue selector as its publications (open finding F-BI: today it travels round-robin and overtakes them). V9 where the subscribers of a lost node are counted out from the consumer lists, no set-membership test stands between the list element and the count (the counter counts relations, not processes). V10 = C04.L12 for events: a remote subscription is recorded before the request is sent (publications follow the answer at once). V11 on a buffered event the subscriber's insert + snapshot and the publisher's store + read of the subscriber list are each inside ONE critical section of the event's buffer lock (Lock dominates the first step, no Unlock between the two): a publication is either in the snapshot or sent to the new subscriber, never both and never neither. V4r the process release function hands both lists of CleanupConsumer to code that sends UnlinkEvent / DemonitorEvent to the nodes of the REMOTE events among them (the owner's node counts subscribers as well and nothing else tells it while the connection stays).",
+		Explanation: "Decides structural clauses of event delivery: V1 in RouteSendEvent the fan-out of a local producer's publication is reachable only through the edge on which the presented token equals the registered token (unknown event and wrong token return errors), the publication is appended to the replay buffer before the consumer list is read, each listed local consumer gets exactly one send of this very message with the publisher as sender, and each remote node gets one frame; V2 in the four subscribe functions the relation is inserted before the replay buffer is snapshotted (no publication can fall between), the consumer counter is changed by exactly +1 after a successful insert / -1 after a successful removal, and the producer is notified with MessageEventStart exactly on the counter value 1 after +1 and with MessageEventStop exactly on 0 after -1, only when notifications are enabled; V3 unregistering an event and the owner's termination both reach RouteTerminateEvent for it, and only the owner may unregister. Added while probing: V1 every element of the subscriber list is either sent to locally or its node recorded in the set the frame loop ranges over. V4 the subscriber counter follows the relation set: the process release function counts a terminating subscriber out of the events it was subscribed to (both lists of CleanupConsumer), with MessageEventStop at zero. V5 = C06.G7 for events: a failed RegisterEvent leaves no entry behind, so the termination of the loser does not unregister the owner's event. V6 the local fan-out sends to a pid only behind the miss edge of a lookup in a set of served pids which it then enters (the consumer list holds a process once per relation). V7 every operation on an event's replay buffer — the push and the whole walk of a new subscriber (Item, Value, Next) — is made while that event's buffer lock is held. V8 the termination notice of an event uses the same kind of link/queue selector as its publications (open finding F-BI: today it travels round-robin and overtakes them). V9 where the subscribers of a lost node are counted out from the consumer lists, no set-membership test stands between the list element and the count (the counter counts relations, not processes). V10 = C04.L12 for events: a remote subscription is recorded before the request is sent (publications follow the answer at once). V11 on a buffered event the subscriber's insert + snapshot and the publisher's store + read of the subscriber list are each inside ONE critical section of the event's buffer lock (Lock dominates the first step, no Unlock between the two): a publication is either in the snapshot or sent to the new subscriber, never both and never neither. V4r the process release function hands both lists of CleanupConsumer to code that sends UnlinkEvent / DemonitorEvent to the nodes of the REMOTE events among them (the owner's node counts subscribers as well and nothing else tells it while the connection stays). V12 the event entry is complete when it is entered into the node's event table: no field of it (the token above all) is assigned after the LoadOrStore that publishes it — a publication with the zero token that finds the entry in between would pass the token check.",
 		NotDecided: []string{
 			"per-publisher order and exactly-once under the subscribe-while-publishing window (consumer list is read without a lock against subscription)",
 			"delivery of each message (C02), remote framing (C12)",
@@ -43,6 +43,7 @@ func runC18(p *load.Program, r *core.Report) {
 	c18TerminationBehindPublications(a.P, r)
 	c18CountOutPerRelation(a.P, r)
 	c18RemoteOwnersTold(a, r)
+	initBeforePublish(a.P, r, "C18.V12 event-complete-when-registered", "C18.V12", 1, []string{"node"}, func(t string) bool { return t == "events" })
 	remoteRelationFirst(a.P, r, "C18.V10 remote-subscription-recorded-before-the-request", "C18.V10", 2, func(m string) bool { return strings.HasSuffix(m, "Event") })
 	if send != nil {
 		c18ServedOnce(a, r, send)
